@@ -17,6 +17,7 @@ CONSTANTS
   MaxSetSeq = 100000
   MaxShots = 100000
   OvfFirstInOpen = TRUE
+  HugeSeals = FALSE
   RecordHist = FALSE
 INVARIANTS
   Agrees TraceStateProps
